@@ -137,6 +137,10 @@ class TermBuilder:
                 return t[3][int(e[1])]
             return ("field", t, e[1])
         if k == "dc":
+            # `x?` desugars to `match Try::branch(x) { Continue(v) => v, Break(r) => return .. }`: the payload of Continue is the
+            # payload of Some / Ok of x itself - name it that way so that `?`-style and explicit `match` code give the same terms
+            if e[1] == "Continue" and t[0] == "call" and t[1].endswith("as std::ops::Try>::branch") and len(t[2]) == 1:
+                return ("dc", t[2][0], "Some" if "option::Option" in t[1] else "Ok")
             return ("dc", t, e[1])
         if k == "idx":
             return ("index", t, self.local(e[1], stack))
